@@ -7,7 +7,7 @@ export GOFLAGS=-mod=mod GOPROXY=off GOSUMDB=off GOTOOLCHAIN=local
 mkdir -p bin .work evidence coq/theories/Gen
 (cd translator && go build -o ../bin/translator .)
 ./bin/translator /repo coq/theories/Gen > .work/translator.log 2>&1 || { cat .work/translator.log; exit 1; }
-(cd coq && coq_makefile -f _CoqProject -o Makefile > /dev/null && timeout 3000 make -j16 > ../.work/make.log 2>&1) || { tail -40 .work/make.log; exit 1; }
+(cd coq && coq_makefile -f _CoqProject -o Makefile > /dev/null && timeout 5400 make -j16 > ../.work/make.log 2>&1) || { tail -40 .work/make.log; exit 1; }
 sh driver/build.sh
 (cd harness && cp /repo/go.sum . 2>/dev/null; go build -tags verif -o ../bin/harness .)
 echo setup ok
